@@ -4,6 +4,7 @@ import re
 from analysis.coverage import fields_read, aggregates
 from analysis.guards import dominating_conditions, conditional_defs
 from analysis.facts import strip_generics, AnchorMissing
+from . import C07 as _C07
 
 EXPLANATION = (
     "Field-level fidelity of the wire mapping, decided by field coverage (A6), provenance (A3) and "
@@ -47,6 +48,8 @@ def check(run):
         run.guard("C08.3.legacy-bijection", cfg, lambda: rule_legacy(run, F, cfg))
         run.guard("C08.4.header", cfg, lambda: rule_header(run, F, cfg))
         run.guard("C08.1.state-coverage", cfg + "/engine", lambda: rule_engine_fields(run, F, cfg))
+        b = run.borrow("C07", why="filters_tagged on the wire reflects the producer's tags; the consumer's are re-applied")
+        run.guard("C08.via.C07.4.deserialize", cfg, lambda: _C07.rule_deserialize(b, F, cfg))
 
 
 def rule_coverage(run, F, cfg):
@@ -269,23 +272,54 @@ def rule_legacy(run, F, cfg):
     run.touched(leg, back)
     LT = V0 + "LegacySpecificFilterType"
     variants = [v["name"] for v in F.adt(LT)["variants"]]
-    # forward: bin -> variants written (closures created in the loop over that bin)
+    # forward: bin -> variants written. A "site" is anything in the conversion that pairs elements of one bin
+    # with a LegacySpecificFilterType constructor: a closure created in the loop over that bin whose body
+    # builds the variant, a direct aggregate, or a call that receives the variant's constructor function
+    # (e.g. a local helper `push_rule(&mut db, hash, f, LegacySpecificFilterType::Hide)`).
+    inner = [g for n, g in F.fns.items() if n.startswith(leg.name + "::")]
+    run.touched(*inner)
+
+    def closure_variants(cname, seen=()):
+        c = F.fns.get(cname)
+        vs = set()
+        if c is None or cname in seen:
+            return vs
+        for cb, ci, cs in c.statements():
+            if cs["k"] == "assign" and cs["rv"]["k"] == "agg":
+                if cs["rv"].get("adt") == LT:
+                    vs.add(cs["rv"]["variant"])
+                elif cs["rv"]["agg"] == "closure":
+                    vs |= closure_variants(cs["rv"]["closure"], seen + (cname,))
+        for cb, ct in c.calls():
+            for a in ct["args"]:
+                mm = re.match(r"^fn:" + re.escape(LT) + r"::(\w+)$", c.expr_operand(a))
+                if mm:
+                    vs.add(mm.group(1))
+        return vs
+
+    def bins_of(ops):
+        ups = " ".join(sorted(x for o in ops for x in leg.deep_origins(o)))
+        return set(re.findall(r"arg:\w+\.(\w+)\.0", ups))
+
     fwd = {}
     for b, i, s in leg.statements():
-        if s["k"] == "assign" and s["rv"]["k"] == "agg" and s["rv"]["agg"] == "closure":
-            cname = s["rv"]["closure"]
-            c = F.fns.get(cname)
-            if c is None:
+        if s["k"] == "assign" and s["rv"]["k"] == "agg":
+            if s["rv"]["agg"] == "closure":
+                vs = closure_variants(s["rv"]["closure"])
+            elif s["rv"].get("adt") == LT:
+                vs = {s["rv"]["variant"]}
+            else:
                 continue
-            vs = set()
-            for cb, ci, cs in c.statements():
-                if cs["k"] == "assign" and cs["rv"]["k"] == "agg" and cs["rv"].get("adt") == LT:
-                    vs.add(cs["rv"]["variant"])
-            ups = " ".join(sorted(x for o in s["rv"]["ops"] for x in leg.deep_origins(o)))
-            mm = re.search(r"arg:v\.(\w+)\.0", ups)
-            # procedural bins go through serde_json::from_str(f) -> as_css: follow
-            if mm and vs:
-                fwd.setdefault(mm.group(1), set()).update(vs)
+            for bn in bins_of(s["rv"]["ops"]) if vs else ():
+                fwd.setdefault(bn, set()).update(vs)
+    for b, t in leg.calls():
+        vs = set()
+        for a in t["args"]:
+            mm = re.match(r"^fn:" + re.escape(LT) + r"::(\w+)$", leg.expr_operand(a))
+            if mm:
+                vs.add(mm.group(1))
+        for bn in bins_of(t["args"]) if vs else ():
+            fwd.setdefault(bn, set()).update(vs)
     # backward: variant -> bin inserted into
     bk = {}
     with back.sites():
@@ -323,17 +357,41 @@ def rule_legacy(run, F, cfg):
                detail="the bin <-> variant tables of the two conversions must be mutually inverse")
     run.ob("C08.3.legacy-bijection", "all-variants", set(bk) == set(variants),
            f"every LegacySpecificFilterType variant is restored into a bin ({sorted(bk)})", config=cfg)
-    # accumulate, never overwrite: writes to `db` only through the entry API
+    # accumulate, never overwrite: writes to `db` only through the entry API (in the conversion, its closures
+    # and its local helper functions)
     bad = []
-    for g in [leg] + F.closures_of(leg.name):
+    ents = []
+    for g in [leg] + inner:
         for b, t in g.calls(r"^std::collections::HashMap::(insert|extend|remove|clear)$|Extend<.*>>::extend$"):
             bad.append((strip_generics(t["callee"]), g.loc(b)))
-    ents = leg.calls(r"^std::collections::HashMap::entry$")
-    run.ob("C08.3.legacy-bijection", "accumulating-writes", not bad and len(ents) >= 6,
-           f"LegacyHostnameRuleDb.db is filled only through entry().and_modify().or_insert_with() "
+        ents += [(g, b) for b, t in g.calls(r"^std::collections::HashMap::entry$")]
+    run.ob("C08.3.legacy-bijection", "accumulating-writes", not bad and len(ents) >= 1,
+           f"LegacyHostnameRuleDb.db is filled only through the entry API "
            f"({len(ents)} sites); overwriting writes: {bad[:2]}", site=leg.loc(0), config=cfg,
            detail="HashMap::insert / extend replace the value of an existing key: rules of another bin "
                   "already collected for the same hostname hash would be dropped")
+    # every element visited is stored: an entry() site is control-dependent only on the loop conditions and,
+    # for the procedural bins, on the element being expressible in the legacy format (from_str Ok / as_css Some)
+    odd = []
+    for g, b in ents:
+        for ce, v in dominating_conditions(g, b).items():
+            if re.search(r"Iterator>::next\(", ce) and ce.startswith("discr("):
+                continue
+            if re.search(r"serde_json::from_str\(|::as_css\(|as_legacy_css\(", ce):
+                continue
+            odd.append((g.name.rsplit("::", 1)[-1], ce[:120], v, g.loc(b)))
+    # a helper that stores must do so on every path to its exit
+    for g in inner:
+        if "{closure" in g.name.rsplit("::", 1)[-1]:
+            continue
+        st = [b for b, t in g.calls(r"^std::collections::HashMap::entry$")]
+        if st and set(g.exits()) & set(g.reachable_from(0, avoid=set(st))):
+            odd.append((g.name.rsplit("::", 1)[-1], "an exit is reachable without passing the store", "", g.loc(0)))
+    run.ob("C08.3.legacy-bijection", "stores-unconditional", not odd,
+           "every rule of a per-hostname bin is written to the legacy map: the store is control-dependent only "
+           "on the loops and (procedural bins) on the element having a CSS form; value-dependent skips lose "
+           f"entries such as the blanket scriptlet exception `#@#+js()`, stored as the empty string ({odd[:2]})",
+           site=odd[0][3] if odd else leg.loc(0), config=cfg)
     # procedural maps restored from the dedicated trailing fields
     de = find_fn(F, r"impl std::convert::From<data_format::v0::DeserializeFormat> for \(blocker::Blocker, cosmetic_filter_cache::CosmeticFilterCache\)>::from$")
     wrote = {}
